@@ -110,6 +110,13 @@ def run(chk):
         spend_jobs.append(drivers.SessionJob("ls:p2sh-shape%d" % k, b"", [], [f for f in STANDARD if f != "CLEANSTACK"], "BASE", auto=True,
                                              txctx={"tx": c.tx.hex(), "txin": c.funding.hex(), "select": -1}))
         spend_jobs[-1].fmods = "-CLEANSTACK"
+    # legacy spends whose scriptSig is empty (anyone-can-spend outputs): the session starts at the scriptPubKey's first operation
+    for k, spk in enumerate([bytes([G.OP["1"], G.OP["1"], G.OP["ADD"], G.OP["2"], G.OP["EQUAL"]]), b"\x51", bytes([G.OP["NOP"]]) * 3 + b"\x51", bytes([G.OP["DEPTH"], G.OP["NOT"]])]):
+        c = gen_spend.SpendCase(rng, "p2pk", "valid", 1, 0, 0)
+        c.funding.vout[0] = btc.TxOut(c.funding.vout[0].amount, spk)
+        c.tx.vin[0].prev_txid = c.funding.txid()
+        c.tx.vin[0].script_sig = b""
+        spend_jobs.append(drivers.SessionJob("ls:empty-scriptsig%d" % k, b"", [], STANDARD, "BASE", auto=True, txctx={"tx": c.tx.hex(), "txin": c.funding.hex(), "select": -1}))
     for j in spend_jobs:
         n += 1
         ev = j.open_event(); ev["repl"] = True; ev["hist"] = True; ev["cmp"] = CMP; ev["id"] = "r%d:%s" % (n, j.id)
